@@ -32,6 +32,11 @@ TECHNIQUE = "static analysis: ordered effect scripts and structural dominance ov
 
 
 def run(ctx):
+    _run_main(ctx)
+    _shared_r4(ctx)
+
+
+def _run_main(ctx):
     m, arms, _ = D.read(ctx)
     with ctx.rule('R08.1', 'closing method, then seal_writes(), then the closing state -- at every close point', floor=6) as r:
         ok, why = panics.seal_before_closing_states(ctx)
@@ -178,3 +183,9 @@ def run(ctx):
         # any other outcome is still propagated
         others = [n for n in H.walk(fn['hir']) if n.get('k') == 'Try' and H.peel(n['e']).get('k') == 'Local' and H.peel(n['e'])['name'] == 'other']
         r.check('other-results-propagated', bare_try or len(others) == 1, ctx.site(fnp, call), why='every other read result must still end the loop with its error')
+
+
+def _shared_r4(ctx):
+    """Rules of other properties that are necessary conditions of this one too (found by seeding round 4)."""
+    with ctx.rule('R08.9', "everything queued before the server's Close is still written: nothing but the write loop shrinks the output buffer (shared with C01)", floor=1) as r:
+        A.include(ctx, r, 'c01', 'R01.3', pick=('shrinkers',))
